@@ -27,6 +27,15 @@ CLAIMS = {
         "int/bool/float, primitive scalar on the left) are recorded on integers with planted coincidences and recomputed by TLC, whose operators are themselves model-checked exhaustively on "
         "3-vectors over 0..3; sums, products, average, dot and Sum/Product of iterators on exact rationals; sqrt/rsqrt/recip/ceil/floor/round on exact pairs."),
   design="§6 C02, §12"),
+ "C03": dict(
+  technique="TLA+ state machine of the layout-agnostic matrix API (VekMatProg/MC_MatProg) with two storage refinements, explored exhaustively by TLC; every enumerated program replayed on a real row-major and a real column-major value side by side and validated by TLC after every call through five projection routes",
+  text=("TLC explores every program of up to 2 (quick) / 3 (thorough) calls from the symbol matrix of each size over the layout-agnostic API (transposed/transpose, layout conversion, the six "
+        "size conversions, the 8 flat/nested array round trips, identity, zero, with_diagonal(diagonal), map, map2, as_, indexed write, write through the mutable flat view) and checks that "
+        "the stored lines of a row-major and of a column-major refinement always abstract to the machine's matrix. Every enumerated program (and long random ones, which also exercise apply/"
+        "apply2/numcast/broadcast_diagonal(trace)) is replayed on a real row-major and a real column-major value side by side; after every call both values are projected through five independent "
+        "routes - (row,col) indexing, into_row_array, into_col_array, the flat slice view read with the OpenGL transpose flag, and Display - and TLC requires all ten projections to equal the abstract "
+        "matrix, the flag to match the layout and the slice to be in the order its name says. map_rows/map_cols, diagonal, trace and the counts are single records."),
+  design="§6 C03, §12"),
  "C04": dict(
   technique=TRACE_TECH,
   text=("TLC model-checks on the specification (random tuples over Z_46337 with c,s free on the unit circle; exact rationals for the orientation laws) that RotX/Y/Z, the 2D rotation and "
